@@ -371,6 +371,13 @@ pub struct Trace {
 /// step every connection arrives, every remaining chunk (and end event) is delivered and the server
 /// is polled once more, so the final observation is determined by the scripts alone.
 pub fn run_scenario(sc: &Scenario) -> Trace {
+    run_scenario_without(sc, &[])
+}
+
+/// Like [`run_scenario`], but the connections marked in `absent` never exist: all their steps are
+/// skipped (the connection indexes, and hence the tags inside the calls, stay the same).
+pub fn run_scenario_without(sc: &Scenario, absent: &[bool]) -> Trace {
+    let is_absent = |c: usize| absent.get(c).copied().unwrap_or(false);
     let listener = SimListener::new();
     let state = Rc::new(RefCell::new(SvcState::default()));
     let server = Server::new(listener.clone(), SimService(state.clone()));
@@ -433,6 +440,7 @@ pub fn run_scenario(sc: &Scenario) -> Trace {
 
     for (idx, step) in steps {
         match step {
+            Step::Arrive(c) | Step::Chunk(c) | Step::Push { c, .. } | Step::End { c, .. } if is_absent(c) => {}
             Step::Arrive(c) if c < n => arrive(c, sc, &listener, &mut handles),
             Step::Chunk(c) if c < n => deliver(c, &mut handles, &mut chunks, &mut delivered, &mut ended),
             Step::Push { c, id, continues } if c < n => {
@@ -685,7 +693,13 @@ pub fn judge_trace(sc: &Scenario, trace: &Trace) -> Result<(), Fail> {
             // served yet: only a prefix can be demanded there. Whenever the delivered bytes end at a
             // frame boundary everything must have been served (equality).
             let at_boundary = obs.delivered[c] == 0 || sc.conns[c].frame_ends(c).contains(&obs.delivered[c]);
-            let ok = if m.dead {
+            // A peer that closes (or whose transport fails) in the middle of a frame: zlink reports the
+            // end of the stream without serving the complete frames that were read together with the
+            // partial one. No listed property demands those replies, so only consistency is checked.
+            let ok = if m.dead && !at_boundary {
+                let k = got.len().min(m.out.len());
+                got[..k] == m.out[..k]
+            } else if m.dead {
                 got.len() >= m.out.len() && got[..m.out.len()] == m.out[..]
             } else if at_boundary {
                 got == m.out
